@@ -309,6 +309,7 @@ func otherThan(all, missing []string) string {
 }
 
 func ruleC07Extra(prog *Program, rep *Report) {
+	rulePutOnce(prog, rep, 10, "oj", "sen")
 	ruleOptSticky(prog, rep, 5, "oj", "sen", "gen", "pretty", "alt", "jp", "asm", "")
 	ruleEntryParity(prog, rep)
 	ruleArgParity(prog, rep)
